@@ -39,6 +39,10 @@ fn verif_emit(v: steel::SteelVal) -> steel::SteelVal {
     v
 }
 
+pub fn emit_count() -> usize {
+    EMITS.try_lock().map(|g| g.len()).unwrap_or(0)
+}
+
 pub fn take_emits() -> Vec<String> {
     let mut g = EMITS.lock().unwrap_or_else(|p| p.into_inner());
     std::mem::take(&mut *g)
